@@ -307,8 +307,9 @@ func Run[E any](o Options[E]) Result[E] {
 						viol = v
 						key = s.Canon()
 						// seen is only written between depths, so it may be read here without the
-						// lock; the event menu is needed only if this may become a new state
-						if _, old := seen[hashKey(key)]; !old || cfg.NoMerge {
+						// lock; the event menu is needed only if this may become a new state that
+						// will be expanded
+						if _, old := seen[hashKey(key)]; (!old || cfg.NoMerge) && depth+1 < cfg.MaxDepth {
 							childEvents = s.Enabled()
 							childN = len(childEvents)
 						}
@@ -387,15 +388,33 @@ func Run[E any](o Options[E]) Result[E] {
 				cappedMsg = "peer shard: " + peerCap
 			}
 		}
+		last := depth+1 >= cfg.MaxDepth // the states of the last depth are counted but not expanded
 		cl := make([]*cand[E], 0, len(cands))
 		for hk, c := range cands {
-			seen[hk] = struct{}{}
+			if !last {
+				seen[hk] = struct{}{}
+			}
+			if last && !c.mine {
+				continue
+			}
 			cl = append(cl, c)
 		}
+		ncl := len(cands)
 		sort.Slice(cl, func(a, b int) bool { return cl[a].j < cl[b].j })
-		nextFrontier := make([]node, 0, len(cl))
+		var nextFrontier []node
+		if !last {
+			nextFrontier = make([]node, 0, len(cl))
+		}
 		nex := 0
 		for _, c := range cl {
+			if last {
+				st.States++
+				if nex < o.Examples {
+					res.Examples = append(res.Examples, Example[E]{History: c.hist, Obs: c.obs, Key: c.key})
+					nex++
+				}
+				continue
+			}
 			p := &frontier[jobs[c.j].ni]
 			d := len(p.hist)
 			nn := node{hist: make([]E, d+1), idx: make([]int32, d+1), known: make([]bool, d+1), events: c.events, nev: c.nev}
@@ -416,7 +435,7 @@ func Run[E any](o Options[E]) Result[E] {
 				}
 			}
 		}
-		st.Levels = append(st.Levels, len(cl))
+		st.Levels = append(st.Levels, ncl)
 		if cappedMsg != "" {
 			st.Capped = cappedMsg
 			break
